@@ -172,7 +172,10 @@ def neighbours_case(case, rng, profiles):
 
 
 def signature_for(case, v):
-    return v["spec"]
+    sig = v["spec"]
+    if not case.get("special") and "nonasync" in json.dumps(case.get("tops")):
+        sig += "/program-with-NonAsyncContext"
+    return sig
 
 
 def make_plan(pid, tier, seed, mix, quick_n, thorough_n, ntops=(1,), extra=None):
